@@ -1,62 +1,32 @@
 import AiutiVerif.Split.Model
 /-!
-# Refinement: the operational `split` model is a pair of cursors
+# The pair-stream machine in canonical form
 
-Every reachable state of the operational model (`Model.lean`: source, three `tee` buffers,
-`map`, logs) is determined by the four cursors `i true, i false, c true, c false`
-(`canon`).  `nextI_canon` / `nextC_canon` show that a `next()` on a tee branch returns
-`src[i]?` / `sels[c]?` and moves exactly that cursor; everything else (what was pulled from
-the source, what the callable was applied to) is a function of the cursors, which is what
-"lazily, each element once" means.
+Every reachable state of `Model.lean` is determined by four numbers: how many pairs have been built
+(`n`), how many further source elements were lost to an exhausted condition iterable (`e`), the two
+cursors and the two "finished" flags.  One `next()` call is characterised on that form
+(`next_spec`), a run by induction over the calls (`run_spec`).
 -/
 namespace AiutiVerif.Split
-
 variable {α σ : Type}
 
-/-- The state determined by the cursors. -/
-def canon (cfg : Cfg α σ) (i c : Bool → Nat) : St α σ :=
-  let n1 := max (i true) (i false)
-  let n2 := max (c true) (c false)
-  match cfg.cond with
-  | .callable _ =>
-    let sp := max n1 n2
-    { srcRest := cfg.src.drop sp, srcPulled := cfg.src.take sp, condRest := [],
-      predLog := cfg.src.take n2, buf0 := cfg.src.take sp, a0 := n1, c0 := n2,
-      buf1 := cfg.src.take n1, i := i, buf2 := (sels cfg).take n2, c := c }
-  | .iter l =>
-    { srcRest := cfg.src.drop n1, srcPulled := cfg.src.take n1, condRest := l.drop n2,
-      predLog := [], buf0 := [], a0 := 0, c0 := 0,
-      buf1 := cfg.src.take n1, i := i, buf2 := l.take n2, c := c }
+def canon (cfg : Cfg α σ) (n e : Nat) (cu : Bool → Nat) (fn : Bool → Bool) : St α σ :=
+  { srcRest := cfg.src.drop (n + e), srcPulled := cfg.src.take (n + e),
+    condRest := (match cfg.cond with | .iter l => l.drop n | .callable _ => []),
+    predLog := (match cfg.cond with | .callable _ => cfg.src.take n | .iter _ => []),
+    buf := (pairs cfg).take n, cur := cu, fin := fn }
 
-theorem init_eq_canon (cfg : Cfg α σ) : init cfg = canon cfg (fun _ => 0) (fun _ => 0) := by
+theorem init_eq_canon (cfg : Cfg α σ) : init cfg = canon cfg 0 0 (fun _ => 0) (fun _ => false) := by
   unfold init canon
-  cases h : cfg.cond <;> simp
-
-/-- Cursor bounds. -/
-structure WF (cfg : Cfg α σ) (i c : Bool → Nat) : Prop where
-  iLe : ∀ b, i b ≤ cfg.src.length
-  cLe : ∀ b, c b ≤ (sels cfg).length
+  cases cfg.cond <;> simp
 
 theorem sels_length_callable (cfg : Cfg α σ) (f) (h : cfg.cond = .callable f) :
     (sels cfg).length = cfg.src.length := by
   simp [sels, h]
 
-theorem max_bump_hit (i : Bool → Nat) (side : Bool)
-    (h : i side < max (i true) (i false)) :
-    max (bump i side true) (bump i side false) = max (i true) (i false) := by
-  cases side <;> simp [bump] at * <;> omega
-
-theorem max_bump_miss (i : Bool → Nat) (side : Bool)
-    (h : ¬ i side < max (i true) (i false)) :
-    max (bump i side true) (bump i side false) = max (i true) (i false) + 1 ∧
-    i side = max (i true) (i false) := by
-  cases side <;> simp [bump] at * <;> omega
-
-theorem take_getElem?_lt (l : List α) (n k : Nat) (h : k < n) : (l.take n)[k]? = l[k]? := by
-  simp [List.getElem?_take, h]
-
-theorem take_getElem?_ge (l : List α) (n k : Nat) (h : ¬ k < n) : (l.take n)[k]? = none := by
-  simp [List.getElem?_take, h]
+theorem sels_getElem?_callable (cfg : Cfg α σ) (f) (h : cfg.cond = .callable f) (n : Nat) :
+    (sels cfg)[n]? = (cfg.src[n]?).map (f n) := by
+  simp [sels, h, List.getElem?_mapIdx]
 
 theorem take_succ_of_getElem? (l : List α) (n : Nat) (x : α) (h : l[n]? = some x) :
     l.take n ++ [x] = l.take (n + 1) := by
@@ -78,132 +48,139 @@ theorem drop_of_getElem? (l : List α) (n : Nat) (x : α) (h : l[n]? = some x) :
   rw [List.getElem?_eq_getElem hn] at h
   cases h; rfl
 
-theorem drop_of_getElem?_none (l : List α) (n : Nat) (h : l[n]? = none) : l.drop n = [] := by
-  rw [List.drop_eq_nil_iff]; exact List.getElem?_eq_none_iff.mp h
+theorem pairs_getElem? (cfg : Cfg α σ) (k : Nat) :
+    (pairs cfg)[k]? =
+      match cfg.src[k]?, (sels cfg)[k]? with
+      | some x, some y => some (x, cfg.truthy y)
+      | _, _ => none := by
+  simp only [pairs, List.zip_eq_zipWith, List.getElem?_zipWith, List.getElem?_map]
+  cases cfg.src[k]? <;> cases (sels cfg)[k]? <;> rfl
 
-end AiutiVerif.Split
+theorem pairs_length (cfg : Cfg α σ) : (pairs cfg).length = min cfg.src.length (sels cfg).length := by
+  simp [pairs, List.length_zip]
 
-namespace AiutiVerif.Split
-variable {α σ : Type}
+def filt (cfg : Cfg α σ) (side : Bool) (k : Nat) : List α :=
+  (((pairs cfg).take k).filter (fun p => p.2 = side)).map (·.1)
 
-theorem nextI_canon (cfg : Cfg α σ) (i c : Bool → Nat) (side : Bool) (wf : WF cfg i c) :
-    nextI cfg side (canon cfg i c) =
-      match cfg.src[i side]? with
-      | some x => (some x, canon cfg (bump i side) c)
-      | none => (none, canon cfg i c) := by
-  have hi := wf.iLe true
-  have hi' := wf.iLe false
-  by_cases hhit : i side < max (i true) (i false)
-  · -- buffer hit
-    have hb := max_bump_hit i side hhit
-    have hlt : i side < cfg.src.length := by omega
-    have hx : cfg.src[i side]? = some cfg.src[i side] := List.getElem?_eq_getElem hlt
-    rw [hx]
-    cases hc : cfg.cond with
-    | callable f =>
-      simp only [nextI, canon, hc, take_getElem?_lt _ _ _ hhit, hx, hb]
-    | iter l =>
-      simp only [nextI, canon, hc, take_getElem?_lt _ _ _ hhit, hx, hb]
-  · -- buffer miss
-    obtain ⟨hb, he⟩ := max_bump_miss i side hhit
-    cases hc : cfg.cond with
-    | callable f =>
-      simp only [nextI, canon, hc, take_getElem?_ge _ _ _ hhit, pullItem, Cond.isCallable, pull0A]
-      rw [he]
-      by_cases h0 : max (i true) (i false) < max (c true) (c false)
-      · -- tee0 already holds the element (the selector side ran ahead)
-        have hc' := wf.cLe true
-        have hc'' := wf.cLe false
-        rw [sels_length_callable cfg f hc] at hc' hc''
-        have hlt : max (i true) (i false) < cfg.src.length := by omega
-        have hx : cfg.src[max (i true) (i false)]? = some cfg.src[max (i true) (i false)] :=
-          List.getElem?_eq_getElem hlt
-        have hm : max (max (i true) (i false)) (max (c true) (c false)) = max (c true) (c false) := by omega
-        have hm' : max (max (i true) (i false) + 1) (max (c true) (c false)) = max (c true) (c false) := by omega
-        simp [hm, hm', take_getElem?_lt _ _ _ h0, hx, hb, take_succ_of_getElem? _ _ _ hx]
-      · have hm : max (max (i true) (i false)) (max (c true) (c false)) = max (i true) (i false) := by omega
-        have hm' : max (max (i true) (i false) + 1) (max (c true) (c false)) = max (i true) (i false) + 1 := by omega
-        simp only [hm, take_getElem?_ge _ _ _ (Nat.lt_irrefl _), pullSrc]
-        cases hx : cfg.src[max (i true) (i false)]? with
-        | none =>
-          simp [drop_of_getElem?_none _ _ hx, hm]
-        | some x =>
-          simp [drop_of_getElem? _ _ _ hx, hb, hm', take_succ_of_getElem? _ _ _ hx]
-    | iter l =>
-      simp only [nextI, canon, hc, take_getElem?_ge _ _ _ hhit, pullItem, Cond.isCallable, pullSrc]
-      rw [he]
-      cases hx : cfg.src[max (i true) (i false)]? with
-      | none =>
-        simp [drop_of_getElem?_none _ _ hx]
-      | some x =>
-        simp [drop_of_getElem? _ _ _ hx, hb, take_succ_of_getElem? _ _ _ hx]
+theorem filt_zero (cfg : Cfg α σ) (side : Bool) : filt cfg side 0 = [] := by simp [filt]
 
+theorem filt_ge (cfg : Cfg α σ) (side : Bool) (k : Nat) (h : (pairs cfg).length ≤ k) :
+    filt cfg side k = sideSpec cfg side := by
+  simp [filt, sideSpec, List.take_of_length_le h]
 
-theorem sels_getElem?_callable (cfg : Cfg α σ) (f) (h : cfg.cond = .callable f) (n : Nat) :
-    (sels cfg)[n]? = (cfg.src[n]?).map (f n) := by
-  simp [sels, h, List.getElem?_mapIdx]
+theorem filt_prefix (cfg : Cfg α σ) (side : Bool) (k : Nat) :
+    filt cfg side k <+: sideSpec cfg side := by
+  unfold filt sideSpec
+  exact List.IsPrefix.map _ (List.IsPrefix.filter _ (List.take_prefix _ _))
 
-theorem nextC_canon (cfg : Cfg α σ) (i c : Bool → Nat) (side : Bool) (wf : WF cfg i c) :
-    nextC cfg side (canon cfg i c) =
-      match (sels cfg)[c side]? with
-      | some y => (some y, canon cfg i (bump c side))
-      | none => (none, canon cfg i c) := by
-  have hc1 := wf.cLe true
-  have hc2 := wf.cLe false
-  by_cases hhit : c side < max (c true) (c false)
-  · have hb := max_bump_hit c side hhit
-    have hlt : c side < (sels cfg).length := by omega
-    obtain ⟨y, hx⟩ : ∃ y, (sels cfg)[c side]? = some y := ⟨_, List.getElem?_eq_getElem hlt⟩
-    rw [hx]
-    cases hc : cfg.cond with
-    | callable f =>
-      simp only [nextC, canon, hc, take_getElem?_lt _ _ _ hhit, hx, hb]
-    | iter l =>
-      have hl : sels cfg = l := by simp [sels, hc]
-      rw [hl] at hx
-      simp only [nextC, canon, hc, take_getElem?_lt _ _ _ hhit, hx, hb]
-  · obtain ⟨hb, he⟩ := max_bump_miss c side hhit
-    cases hc : cfg.cond with
-    | callable f =>
-      simp only [nextC, canon, hc, take_getElem?_ge _ _ _ hhit, pullSel, pull0C]
-      rw [he, sels_getElem?_callable cfg f hc]
-      by_cases h0 : max (c true) (c false) < max (i true) (i false)
-      · have hi1 := wf.iLe true
-        have hi2 := wf.iLe false
-        have hlt : max (c true) (c false) < cfg.src.length := by omega
-        have hx : cfg.src[max (c true) (c false)]? = some cfg.src[max (c true) (c false)] :=
-          List.getElem?_eq_getElem hlt
-        have hm : max (max (i true) (i false)) (max (c true) (c false)) = max (i true) (i false) := by omega
-        have hm' : max (max (i true) (i false)) (max (c true) (c false) + 1) = max (i true) (i false) := by omega
-        have hs : (sels cfg)[max (c true) (c false)]? = some (f (max (c true) (c false)) cfg.src[max (c true) (c false)]) := by
-          rw [sels_getElem?_callable cfg f hc, hx]; rfl
-        have hlen : (List.take (max (c true) (c false)) cfg.src).length = max (c true) (c false) := by
-          simp; omega
-        simp [hm, hm', take_getElem?_lt _ _ _ h0, hx, hb, take_succ_of_getElem? _ _ _ hx,
-          take_succ_of_getElem? _ _ _ hs, hlen]
-      · have hm : max (max (i true) (i false)) (max (c true) (c false)) = max (c true) (c false) := by omega
-        have hm' : max (max (i true) (i false)) (max (c true) (c false) + 1) = max (c true) (c false) + 1 := by omega
-        simp only [hm, take_getElem?_ge _ _ _ (Nat.lt_irrefl _), pullSrc]
-        cases hx : cfg.src[max (c true) (c false)]? with
-        | none =>
-          simp [drop_of_getElem?_none _ _ hx]
-        | some x =>
-          have hs : (sels cfg)[max (c true) (c false)]? = some (f (max (c true) (c false)) x) := by
-            rw [sels_getElem?_callable cfg f hc, hx]; rfl
-          have hlt : max (c true) (c false) ≤ cfg.src.length := by
-            rw [← sels_length_callable cfg f hc]; omega
-          have hlen : (List.take (max (c true) (c false)) cfg.src).length = max (c true) (c false) := by
+theorem filt_succ (cfg : Cfg α σ) (side : Bool) (k : Nat) (p : α × Bool) (hp : (pairs cfg)[k]? = some p) :
+    filt cfg side (k + 1) = filt cfg side k ++ (if p.2 = side then [p.1] else []) := by
+  unfold filt
+  rw [← take_succ_of_getElem? _ _ _ hp, List.filter_append, List.map_append]
+  by_cases ht : p.2 = side <;> simp [ht]
+
+theorem bump_same (f : Bool → Nat) (side : Bool) : bump f side side = f side + 1 := by simp [bump]
+theorem bump_other (f : Bool → Nat) (side b : Bool) (h : b ≠ side) : bump f side b = f b := by
+  simp [bump, h]
+theorem setFin_same (f : Bool → Bool) (side : Bool) : setFin f side side = true := by simp [setFin]
+theorem setFin_other (f : Bool → Bool) (side b : Bool) (h : b ≠ side) : setFin f side b = f b := by
+  simp [setFin, h]
+
+/-- What the four numbers must satisfy. -/
+structure WF (cfg : Cfg α σ) (n e : Nat) (cu : Bool → Nat) (fn : Bool → Bool) : Prop where
+  nLe : n ≤ (pairs cfg).length
+  neLe : n + e ≤ cfg.src.length
+  nMax : n = max (cu true) (cu false)
+  lost : 0 < e → n = (pairs cfg).length ∧ ∀ f, cfg.cond ≠ .callable f
+  finEnd : ∀ b, fn b = true → cu b = (pairs cfg).length
+
+/-- `next()` on the `map` object, in canonical form: while pairs remain it yields the next one; when the
+condition iterable is exhausted but the source is not, it loses one source element; otherwise nothing. -/
+theorem pullPair_canon (cfg : Cfg α σ) (n e : Nat) (cu : Bool → Nat) (fn : Bool → Bool) (wf : WF cfg n e cu fn) :
+    (∀ p, (pairs cfg)[n]? = some p →
+      pullPair cfg (canon cfg n e cu fn) =
+        (some p, { canon cfg (n + 1) e cu fn with buf := (pairs cfg).take n }) ∧ e = 0) ∧
+    ((pairs cfg)[n]? = none → n + e < cfg.src.length →
+      pullPair cfg (canon cfg n e cu fn) = (none, canon cfg n (e + 1) cu fn) ∧ ∀ f, cfg.cond ≠ .callable f) ∧
+    ((pairs cfg)[n]? = none → ¬ n + e < cfg.src.length →
+      pullPair cfg (canon cfg n e cu fn) = (none, canon cfg n e cu fn)) := by
+  refine ⟨?_, ?_, ?_⟩
+  · intro p hp
+    have hn : n < (pairs cfg).length := by
+      rcases Nat.lt_or_ge n (pairs cfg).length with h' | h'
+      · exact h'
+      · rw [List.getElem?_eq_none_iff.mpr h'] at hp; cases hp
+    have he : e = 0 := by
+      rcases Nat.eq_zero_or_pos e with h0 | h0
+      · exact h0
+      · have := (wf.lost h0).1; omega
+    subst he
+    refine ⟨?_, rfl⟩
+    rw [pairs_getElem?] at hp
+    cases hx : cfg.src[n]? with
+    | none => rw [hx] at hp; cases hp
+    | some x =>
+      cases hy : (sels cfg)[n]? with
+      | none => rw [hx, hy] at hp; cases hp
+      | some y =>
+        rw [hx, hy] at hp
+        simp only [Option.some.injEq] at hp
+        subst hp
+        unfold pullPair canon
+        simp only [Nat.add_zero]
+        rw [drop_of_getElem? _ _ _ hx]
+        simp only []
+        cases hc : cfg.cond with
+        | callable f =>
+          simp only []
+          have hyf : y = f n x := by
+            rw [sels_getElem?_callable cfg f hc, hx] at hy
+            simpa using hy.symm
+          have hlen : (cfg.src.take n).length = n := by
+            have : n < cfg.src.length := by
+              rcases Nat.lt_or_ge n cfg.src.length with h' | h'
+              · exact h'
+              · rw [List.getElem?_eq_none_iff.mpr h'] at hx; cases hx
             simp; omega
-          simp [drop_of_getElem? _ _ _ hx, hb, hm', take_succ_of_getElem? _ _ _ hx,
-            take_succ_of_getElem? _ _ _ hs, hlen]
+          rw [hlen, take_succ_of_getElem? _ _ _ hx, ← hyf]
+        | iter l =>
+          simp only []
+          have hyl : l[n]? = some y := by simpa [sels, hc] using hy
+          rw [drop_of_getElem? _ _ _ hyl]
+          simp only []
+          rw [take_succ_of_getElem? _ _ _ hx]
+  · intro hp hlt
+    have hx : cfg.src[n + e]? = some cfg.src[n + e] := List.getElem?_eq_getElem hlt
+    have hnc : ∀ f, cfg.cond ≠ .callable f := by
+      intro f hc
+      -- a callable condition has a decision for every source element
+      have hlen := sels_length_callable cfg f hc
+      have hpl := pairs_length cfg
+      have hnp : (pairs cfg).length ≤ n := List.getElem?_eq_none_iff.mp hp
+      rcases Nat.eq_zero_or_pos e with h0 | h0
+      · subst h0; omega
+      · exact (wf.lost h0).2 f hc
+    refine ⟨?_, hnc⟩
+    cases hc : cfg.cond with
+    | callable f => exact absurd hc (hnc f)
     | iter l =>
-      have hl : sels cfg = l := by simp [sels, hc]
-      simp only [nextC, canon, hc, take_getElem?_ge _ _ _ hhit, pullSel]
-      rw [he, hl]
-      cases hx : l[max (c true) (c false)]? with
-      | none =>
-        simp [drop_of_getElem?_none _ _ hx]
-      | some x =>
-        simp [drop_of_getElem? _ _ _ hx, hb, take_succ_of_getElem? _ _ _ hx]
+      have hnp : (pairs cfg).length ≤ n := List.getElem?_eq_none_iff.mp hp
+      have hsl : (sels cfg).length = l.length := by simp [sels, hc]
+      have hpl := pairs_length cfg
+      have hln : l.length ≤ n := by
+        have := wf.nLe
+        omega
+      unfold pullPair canon
+      rw [drop_of_getElem? _ _ _ hx]
+      simp only [hc]
+      have hd : l.drop n = [] := by rw [List.drop_eq_nil_iff]; exact hln
+      rw [hd]
+      simp only []
+      rw [take_succ_of_getElem? _ _ _ hx]
+      rfl
+  · intro _ hge
+    unfold pullPair canon
+    have : cfg.src.drop (n + e) = [] := by rw [List.drop_eq_nil_iff]; omega
+    rw [this]
 
 end AiutiVerif.Split
